@@ -364,6 +364,34 @@ fn ransac_case(case: &Case, l: &mut Local) {
             l.check("RANSAC returns a circle", "", false, mk, || format!("{:?}", other.map(|r| r.map(|c| c.r()))));
         }
     }
+    // with radius limits that admit the generating circle, over several orders of the same points (the seeded
+    // draws then pick other triples): still at least as well supported, and inside the limits
+    if nout > 0 {
+        let n = pts.len();
+        for stride in [1usize, 3, 7, 11] {
+            if gcd(stride, n) != 1 {
+                continue;
+            }
+            let order: Vec<Point2> = (0..n).map(|i| pts[(i * stride + 2) % n]).collect();
+            for (lo, hi) in [(Some(0.5 * r), Some(1.5 * r)), (None, Some(1.2 * r)), (Some(0.8 * r), None)] {
+                l.eval();
+                l.bucket("contaminated circle with radius limits");
+                match guarded(|| Circle2::ransac(&order, tol, Some(500), lo, hi).map_err(|e| e.to_string())) {
+                    Ok(Ok(c)) => {
+                        let within = lo.map(|x| c.r() >= x).unwrap_or(true) && hi.map(|x| c.r() <= x).unwrap_or(true);
+                        l.check("the RANSAC circle has at least as many inliers as the generating circle", "limits", inl(&c) >= inl(&gen) && within, mk, || format!("stride {} limits {:?}..{:?}: {} inliers at r {} against {}", stride, lo, hi, inl(&c), c.r(), inl(&gen)));
+                    }
+                    other => {
+                        l.check("RANSAC returns a circle", "limits", false, mk, || format!("stride {} limits {:?}..{:?}: {:?}", stride, lo, hi, other.map(|r| r.map(|c| c.r()))));
+                    }
+                }
+            }
+        }
+    }
+}
+
+fn gcd(a: usize, b: usize) -> usize {
+    if b == 0 { a } else { gcd(b, a % b) }
 }
 
 pub fn judge(case: &Case, l: &mut Local) {
@@ -457,7 +485,7 @@ pub fn run(tier: Tier) -> i32 {
     let mut cx = Ctx::new("C09", tier, "exploration");
     cx.rule = "polynomials with K = 2..6 coefficients: coefficient vectors from {-2,-1,0,1,3}^K (sub-sampled deterministically for K >= 5 in the quick tier) x 5 abscissa sets (asymmetric, one-sided, clustered, offset, integer) x sizes K, K+1, K+3 x 5 weight patterns; arbitrary ordinates {-1,0,2}^(K+2) for the orthogonality clause; circles: 3 centres x 3 radii x 4 arc extents x 3 starts x 3 counts x 5 guesses x 2 modes; all set_params histories of length <= 3 over a 5-vector alphabet of the private CircleFit problem (hook H4) compared with a fresh problem; every ordered triple of the 4x4 lattice at 3 scales; seeded RANSAC on 36 contaminated sets. distinct = distinct cases".into();
     cx.bounds = json!({"K": [2, 6], "coefficient_alphabet": COEF, "abscissa_sets": xsets().len(), "circle_histories_max_len": 3});
-    cx.require(&["abscissae with a non-zero moment of order K", "abscissae with a vanishing moment of order K", "weighted", "unweighted", "arbitrary data", "full circle", "partial arc", "perturbed samples", "set_params history", "collinear triple", "non-collinear triple", "triple with coordinates below 0.01", "contaminated circle"]);
+    cx.require(&["abscissae with a non-zero moment of order K", "abscissae with a vanishing moment of order K", "weighted", "unweighted", "arbitrary data", "full circle", "partial arc", "perturbed samples", "set_params history", "collinear triple", "non-collinear triple", "triple with coordinates below 0.01", "contaminated circle", "contaminated circle with radius limits"]);
     cx.assume("recovery tolerance 1e5 * cond(M) * eps * |c|_inf (the routine inverts the normal matrix explicitly); instances with cond > 1e8 are skipped and counted");
     let cs = cases(tier);
     let l = sweep(&cs, judge);
